@@ -103,6 +103,7 @@ class Judge:
                  hist_max_abs_c=(res.get("seam") or {}).get("hist_max_abs_c", 0.0),
                  aa_faults=bool(((res.get("faults") or {}).get("aa"))),
                  ls_exhausted=bool((res.get("seam") or {}).get("ls_exhausted")),
+                 infeasible_start=bool(res.get("infeasible_start")),
                  )
         if extra:
             f.update(extra)
@@ -173,7 +174,12 @@ class Judge:
             if not pr.finite(w, b):
                 return out
         # ---- C04 feasibility (exact)
-        if pr.pen.has_constraint and not pr.pen.feasible(w):
+        # (a call that performed no iteration - the first optimality test passed, which the
+        # fixed-point score allows for an infeasible point within tol of its projection -
+        # returns the caller's own vector: not a vector the solver produced)
+        no_work = bool(res.get("infeasible_start")) and not (res.get("seam") or {}).get("outer") \
+            and not (res.get("seam") or {}).get("epochs") and not len(res["obj_out"])
+        if pr.pen.has_constraint and not pr.pen.feasible(w) and not no_work:
             wv = np.asarray(w)
             out.append(dict(prop=["C04"], oracle="feasible", sig=sig0 + ("infeasible",),
                             detail=dict(min=float(wv.min()), max=float(wv.max()),
@@ -371,8 +377,13 @@ class Judge:
         # constants, so only there are the two numbers the same quantity; a factor 2 plus the
         # rounding / drift allowance separates "understated" from rounding.)
         cf = res.get("cert_full")
-        if claimed and cf is not None and crit == "subdiff" and s.solver_name in B.C01_SOLVERS \
-                and np.isfinite(res["stop_crit"]):
+        # (as extended in round 3: also under the fixed-point criterion, where the reference
+        # residual is evaluated with the reference model's own step constants - the curvature at
+        # the returned point for ProxNewton, the documented global constants otherwise - so a
+        # solver that scores with stale or foreign step sizes is seen; same factor 2)
+        if claimed and cf is not None and crit in ("subdiff", "fixpoint") \
+                and s.solver_name in B.C01_SOLVERS and np.isfinite(res["stop_crit"]) \
+                and (crit == "subdiff" or pr.pen.kind != "vec"):
             sc = max(float(res["stop_crit"]), 0.0)
             # (the solver's number is computed from its in-place model fit, which a line search
             # with a huge trial step or a column of scale 1e6 leaves off X w by far more than
